@@ -1,5 +1,7 @@
 import CogentModel.Model.Aln
 import CogentModel.Proofs.AlnInv
+import CogentModel.Proofs.AlnRefine2
+import CogentModel.Proofs.AlnViewSim
 /-! # C03 — property theorems (alignment operations equal the operations on the gapped strings)
 
 `gapped r` is the string a row `Aligned(map, data)` displays; `rowOfString` is how `Alignment`
@@ -7,10 +9,6 @@ builds a row from a gapped string; `AlnD` rows are the dense `ArrayAlignment` ro
 themselves). -/
 namespace CogentModel.C03
 open CogentModel.IndelMap CogentModel.Aln
-
-/-- what an alignment of either class shows: name ↦ gapped string -/
-def showA (a : AlnA) : AlnD := a.map fun p => (p.1, gapped p.2)
-def ofStrings (d : AlnD) : AlnA := d.map fun p => (p.1, rowOfString p.2)
 
 /-- A row built from a gapped string (`parse_out_gaps`) displays exactly that string: no character
 is altered, for every gap layout and every alphabet. -/
@@ -51,25 +49,7 @@ example : ∀ q ∈ ofStrings [("a", "A-C".toList), ("b", "---".toList)], len q.
 /-- `take_seqs` (either polarity) commutes with display: selecting rows of the annotatable alignment
 and then reading them equals selecting the named strings. -/
 theorem take_seqs_refines (a : AlnA) (names : List String) (negate : Bool) :
-    showA (takeSeqs a names negate) = takeSeqs (showA a) names negate := by
-  unfold showA takeSeqs
-  cases negate with
-  | true => simp [List.filter_map, Function.comp_def]
-  | false =>
-    simp only [Bool.false_eq_true, if_false]
-    have hf : ∀ n : String, (List.find? (fun x => decide (x.1 = n)) (List.map (fun p => (p.1, gapped p.2)) a))
-        = (List.find? (fun x => decide (x.1 = n)) a).map (fun p => (p.1, gapped p.2)) := by
-      intro n
-      rw [List.find?_map]
-      rfl
-    induction names with
-    | nil => rfl
-    | cons n ns ih =>
-      simp only [List.filterMap_cons]
-      rw [hf]
-      cases hfa : List.find? (fun x => decide (x.1 = n)) a with
-      | none => simpa using ih
-      | some x => simpa using ih
+    showA (takeSeqs a names negate) = takeSeqs (showA a) names negate := takeSeqs_show a names negate
 
 example : showA (takeSeqs (ofStrings [("s0", "G-".toList), ("s1", "AC".toList)]) ["s1"] false) = [("s1", "AC".toList)] := by decide
 
@@ -79,13 +59,93 @@ theorem slice_beyond_len_then_rc_example :
     ((rowSlice (rowOfString "G--".toList) (some 0) (some 4)).toOption.bind fun r => (rowRc true r).toOption.map gapped)
       = some "--C".toList := by decide
 
-/- FULL STATEMENT (not proved): `aln_refines` — for every alignment `a` whose rows are well formed and
-every list `ops` of slice / int / rc / take_positions / take_seqs / keep-blocks / + / to_rna / to_dna,
-`showA (run ops a) = Spec.run ops (showA a)`, and the same for dense rows, hence both classes agree
-after every history.  Not proved: it needs `getitem_spec` of C08 (the start-case x stop-case product of
-`IndelMap.__getitem__`), which was not completed in the time available, and it is FALSE for the code as
-it stands for slices with stop > len, negative / out-of-range int indices, `aln + aln` and
-`take_positions(negate=True)` (see known_findings.d/C03.json).  Those clauses are covered by the
-correspondence check (model = code on random histories) plus the spec-level differential. -/
+/-- **Row slicing refines string slicing** for every `start`/`stop` (`None`, negative, beyond the
+end, inside gap runs): on a well-formed row, `Aligned.__getitem__(slice)` — new map from
+`IndelMap.__getitem__`, data sliced at the two sequence indices — displays `s[a:b]`, and the
+result is again well formed (map and data stay consistent). -/
+theorem slice_refines (r r' : Row) (h : RowWF r) (a b : Option Int) (hr : rowSlice r a b = .ok r') :
+    RowWF r' ∧ gapped r' = PySlice.slice (gapped r) a b 1 := rowSlice_spec r r' h a b hr
+
+example : (rowSlice (rowOfString "-AC--G-".toList) (some 1) (some (-2))).toOption.map gapped
+    = some (PySlice.slice "-AC--G-".toList (some 1) (some (-2)) 1) := by decide
+
+/-- Integer indexing of a row follows Python index semantics (negative indices, IndexError when out
+of range) and shows the character of that column. -/
+theorem int_refines (r r' : Row) (h : RowWF r) (i : Int) (hr : rowInt r i = .ok r') :
+    RowWF r' ∧ ∃ c, PySlice.index (gapped r) i = some c ∧ gapped r' = [c] := rowInt_spec r r' h i hr
+
+example : (rowInt (rowOfString "A-C".toList) (-1)).toOption.map gapped = some ['C'] := by decide
+
+/-- `take_positions(cols)` (repeated / unsorted / negative columns) shows the selected columns. -/
+theorem take_positions_refines (r r' : Row) (h : RowWF r) (cols : List Int)
+    (hr : rowTakePositions r cols = .ok r') :
+    RowWF r' ∧ denseTake (gapped r) cols = .ok (gapped r') := rowTakePositions_spec r r' h cols hr
+
+example : (rowTakePositions (rowOfString "A-CG".toList) [3, 0, 0, -3]).toOption.map gapped = some "GAA-".toList := by decide
+
+/-- A well-formed row's `len` is the length of the string it displays (so rows that display
+equally long strings have equal `len`). -/
+theorem len_eq_display (r : Row) (h : RowWF r) : len r.map = (gapped r).length := by
+  rw [gapped_total r h, List.length_map]; exact (len_eq' r.map h.1).symm
+
+example : RowWF (rowOfString "A--C".toList) := rowWF_ofString _
+
+/-- Reverse-complementing a row (`nucleic_reversed` of the map, `rc` of the sequence) shows the
+reverse complement of the string it displayed, and keeps the row well formed. -/
+theorem rc_refines (dna : Bool) (r r' : Row) (h : RowWF r) (hr : rowRc dna r = .ok r') :
+    RowWF r' ∧ gapped r' = (gapped r).reverse.map (comp dna) := rowRc_spec dna r r' h hr
+
+example : (rowRc true (rowOfString "-AC--G".toList)).toOption.map gapped = some "C--GT-".toList := by decide
+
+/-- **History theorem** (`aln_refines`): for every alignment with well-formed rows and every finite
+sequence of slice / int / rc / take_seqs / take_positions / to_rna / to_dna / `+` operations, if the
+annotatable class completes the history, the rows it then shows are exactly the rows obtained by
+running the same history on the plain gapped strings (which is what the dense class does), and all
+rows are still well formed.  By induction over the operation list. -/
+theorem aln_refines (ops : List AOp) (dna : Bool) (a : AlnA) (hops : ∀ op ∈ ops, OpOK op) (hwf : AllWF a)
+    (a' : AlnA) (dna' : Bool) (h : runA dna a ops = .ok (a', dna')) :
+    AllWF a' ∧ runD dna (showA a) ops = some (.ok (showA a', dna')) :=
+  run_refines ops dna a hops hwf a' dna' h
+
+example : (runA true (ofStrings [("s0", "G-A-T".toList), ("s1", "A-CNT".toList)])
+      [.slice (some 1) none, .rc, .takePositions [3, 0] false, .toRna]).toOption.map (fun r => showA r.1)
+    = some [("s0", "-A".toList), ("s1", "-A".toList)] := by decide
+
+/-- **The two classes agree after every history**: starting from the same named gapped strings,
+whatever the annotatable class shows after a history is what the dense class holds. -/
+theorem array_annotatable_agree_history (ops : List AOp) (dna : Bool) (d : AlnD)
+    (hops : ∀ op ∈ ops, OpOK op) (a' : AlnA) (dna' : Bool)
+    (h : runA dna (ofStrings d) ops = .ok (a', dna')) :
+    runD dna d ops = some (.ok (showA a', dna')) := by
+  have hwf : AllWF (ofStrings d) := by
+    intro p hp
+    obtain ⟨q, _, rfl⟩ := List.mem_map.mp hp
+    exact rowWF_ofString _
+  have := (run_refines ops dna (ofStrings d) hops hwf a' dna' h).2
+  rwa [array_annotatable_agree] at this
+
+example : (∀ op ∈ [AOp.slice (some 0) (some 9), AOp.int (-1)], OpOK op) := by simp [OpOK]
+
+/-- **Through the real view arithmetic (C01)**: keep each row's data as the C01 sequence model
+(parent string + slice record `start/stop/step`, complemented on display when reversed) instead of
+its displayed string.  Then for every history of slices (any bounds) and reverse complements —
+e.g. slice, rc, slice — the row finally displays what the same history gives on the plain gapped
+string.  Uses `C01`'s `str_getitem` / `str_rc` for the sequence and `C08`'s `getitem_spec` /
+`reversed_spec` for the map; `cf` is any involutive complement that fixes the gap character. -/
+theorem view_history_refines (cf : Char → Char) (hcf : ∀ x, cf (cf x) = x) (hgap : cf '-' = '-')
+    (ops : List VOp) (rv rv' : RowV) (h : RowVWF cf rv) (hr : runV rv ops = .ok rv') :
+    RowVWF cf rv' ∧ gapped (rv'.toRow cf) = runStr cf (gapped (rv.toRow cf)) ops :=
+  runV_refines cf hcf hgap ops rv rv' h hr
+
+example : ∃ cf : Char → Char, (∀ x, cf (cf x) = x) ∧ cf '-' = '-' := ⟨id, fun _ => rfl, rfl⟩
+example : (runV ⟨fromGapped ("A-CG-T".toList.map isGap), SeqWrap.ofString "ACGT".toList true⟩
+      [.slice (some 1) (some 9), .rc, .slice (some 1) none]).toOption.map (fun r => gapped (r.toRow (comp true)))
+    = some "-CG-".toList := by decide
+
+/- FULL STATEMENT (not proved): the same history theorem including `take_positions(negate=True)`,
+   the `keep` blocks of `filtered()` (multi-span `joined_segments`), and the error clause (both
+   classes raise IndexError together; a negative slice bound below -len is refused by the annotatable
+   class but clamped by the dense one).  Those are covered by the correspondence check and the
+   spec-level differential on both classes. -/
 
 end CogentModel.C03
